@@ -322,6 +322,7 @@ def gen_main(module, name, header_text, script, imports_spec=None, instances=1, 
     for e in module.exports:
         if e.kind == "func":
             sigs.setdefault(bytes(e.name), module.func_sig(e.index))
+    nth = {}
     for cn, (ins, ename, args) in enumerate(script):
         ename = ename.encode("utf-8") if isinstance(ename, str) else bytes(ename)
         if ename not in sigs:
@@ -333,7 +334,8 @@ def gen_main(module, name, header_text, script, imports_spec=None, instances=1, 
         argl = "".join(", " + lit(t, b) for (t, b) in args)
         call = "%s(&INST(%d)%s)" % (cname, ins, argl)
         pre = ""
-        if cn % 2 == 1 and 0 not in ename:
+        nth[ins] = nth.get(ins, 0) + 1
+        if nth[ins] % 2 == 0 and 0 not in ename:          # every other call OF THIS INSTANCE (its projection does not depend on the interleaving)
             # every other call goes through the name table <module>FuncExports (lookup by name, call through the row's pointer), the
             # others through the <module>_<name> symbol: both must reach the exported function
             ptype = "%s (*)(void*%s)" % (CT[sig.results[0]] if sig.results else "void", "".join(", " + CT[t] for t in sig.params))
